@@ -2,6 +2,8 @@
 import Driver.Common
 import ZepidVerif.Model.SuperLearner
 import ZepidVerif.Model.Stepwise
+import ZepidVerif.Gen.Stack
+import ZepidVerif.Model.StepwiseGen
 namespace ZVD
 open ZV ZV.SL
 
@@ -12,8 +14,31 @@ def showSLEv : SL.Ev → String
 def showOptCoefs (c : Option (List Rat)) : String :=
   match c with | none => "nan" | some cs => showList showRat cs
 
-/-- `slfit n= k= m= thr= raw= discrete=`: folds, post-processed coefficients (exact), retained candidates and the
-    complete call sequence of `SuperLearner.fit`; `err badInput` when `KFold` rejects `(n, k)`. -/
+/-- what `SuperLearner.fit` stores and whom it refits, **from the regenerated lines** (`Gen/Stack.lean`): Step 6
+    (`sl_coefficients`), then Step 7.a (`sl_fit_discrete`) or 7.b (`sl_fit_full`).  The carrier has no NaN: numpy's
+    all-NaN vector (`0 / 0`, thresholded sum zero) is reported as `none`, exactly the case `coef_nan_iff` describes;
+    the refit decisions of the regenerated loops are taken on the carrier's value there (all comparisons false both
+    for NaN and for the zero vector the carrier holds). -/
+def genCoefs (thr : Rat) (discrete : Bool) (raw : List Rat) (m : Nat) : Option (List Rat) × List Nat :=
+  let w := Gen.sl_coefficients thr raw
+  let isNan := Np.sum (Np.maskSet raw (fun v => v < thr) ((0 : Nat) : Rat)) == 0
+  if discrete then
+    let r := Gen.sl_fit_discrete w m
+    (some r.1, r.2.map Int.toNat)
+  else
+    (if isNan then none else some w, (Gen.sl_fit_full w m).map Int.toNat)
+
+/-- the call sequence of `SuperLearner.fit` from the regenerated fold loop (`sl_cv_calls`, given `KFold`'s pairs) and
+    the regenerated refit decisions -/
+def genFitSchedule (n m : Nat) (folds : List (List Nat)) (keep : List Nat) : List SL.Ev :=
+  (Gen.sl_cv_calls (folds.map (fun t => (trainRows n t, t))) m).flatMap
+      (fun r => [SL.Ev.fit (r.1 - 1) r.2.1.toNat r.2.2.1, SL.Ev.pred (r.1 - 1) r.2.1.toNat r.2.2.2.1])
+    ++ keep.map (fun c => SL.Ev.fit folds.length c (List.range n))
+
+/-- `slfit n= k= m= thr= raw= discrete=`: folds (`KFold`, hand-modelled external), post-processed coefficients
+    (exact), retained candidates and the complete call sequence of `SuperLearner.fit` — all **executed from the
+    regenerated code**; `stored` = every record of the fold loop stores its predictions in the rows it predicted;
+    `model` = the hand-written model of Props/C20.lean gives the same; `err badInput` when `KFold` rejects `(n, k)`. -/
 def opSLFit (a : Args) : Except String String := do
   let n ← need a "n" parseNat
   let k ← need a "k" parseNat
@@ -24,26 +49,37 @@ def opSLFit (a : Args) : Except String String := do
   match kfold n k with
   | none => pure "err badInput"
   | some folds =>
-    let coefs := coefficients thr discrete raw
-    let evs := fitSchedule n m folds coefs
+    let (coefs, keep) := genCoefs thr discrete raw m
+    let evs := genFitSchedule n m folds keep
+    let mcoefs := coefficients thr discrete raw
+    let agree := coefs == mcoefs && keep == retained mcoefs && evs == fitSchedule n m folds mcoefs
+    let stored := (Gen.sl_cv_calls (folds.map (fun t => (trainRows n t, t))) m).all (fun r => r.2.2.2.2 == r.2.2.2.1)
     pure (s!"ok folds={";".intercalate (folds.map (showList toString))} coefs={showOptCoefs coefs} " ++
-      s!"keep={showList toString (retained coefs)} trace={"|".intercalate (evs.map showSLEv)}")
+      s!"keep={showList toString keep} trace={"|".intercalate (evs.map showSLEv)} " ++
+      s!"stored={showBool stored} model={showBool agree}")
 
 def parseMatrix {α} (p : String → Option α) (s : String) : Option (List (List α)) :=
   if s == "" || s == "-" then some [] else (s.splitOn ";").mapM (parseList p)
 
-/-- `slpredict loss=l2 coefs=<rat> preds=<row;row;…>` (exact) or `loss=nloglik b=<float> coefs=<float> preds=…` -/
+/-- `slpredict loss=l2 coefs=<rat> preds=<row;row;…>` (exact) or `loss=nloglik b=<float> coefs=<float> preds=…`:
+    the regenerated `predict` (`Gen.sl_predict_l2` / `Gen.sl_predict_nloglik`) per row; `model` = the hand-written
+    `predictL2` / `predictNll` give the same (bit for bit at `Float`) -/
 def opSLPredict (a : Args) : Except String String := do
   let loss ← need a "loss" some
   if loss == "l2" then
     let coefs ← rts a "coefs"
     let rows ← need a "preds" (parseMatrix parseRat)
-    pure ("ok y=" ++ showList showRat (rows.map (predictL2 coefs)))
+    let y := rows.map (fun preds => Gen.sl_predict_l2 (0 : Rat) coefs preds coefs.length)
+    pure ("ok y=" ++ showList showRat y ++ s!" model={showBool (y == rows.map (predictL2 coefs))}")
   else
     let coefs ← fls a "coefs"
     let b ← fl a "b"
     let rows ← need a "preds" (parseMatrix parseFloat)
-    pure ("ok y=" ++ showList showFloat (rows.map (predictNll logit expit b coefs)))
+    let y := rows.map (fun preds =>
+      Gen.sl_predict_nloglik logit expit (Bounds.clip1 b (((1 : Nat) : Float) - b)) nan coefs preds coefs.length)
+    let ym := rows.map (predictNll logit expit b coefs)
+    pure ("ok y=" ++ showList showFloat y ++
+      s!" model={showBool (y.map Float.toBits == ym.map Float.toBits)}")
 
 /-- `slerr loss= y= p= [b=]`: the cross-validated error term of one candidate -/
 def opSLErr (a : Args) : Except String String := do
@@ -77,14 +113,20 @@ def opStepwise (a : Args) : Except String String := do
     match entries.find? (fun e => e.1 == c) with
     | some e => e.2
     | none => none
-  match Stepwise.search dir aic p with
-  | none => pure "err startNaN"
+  -- executed: the search driven by the column bookkeeping regenerated from StepwiseSL.fit (Model/StepwiseGen.lean);
+  -- `model` = the hand-written `Stepwise.search` (the subject of `stepwise_sound`) returns the same
+  let same := match Stepwise.genSearch dir aic p, Stepwise.search dir aic p with
+    | none, none => true
+    | some R, some M => R.cols == M.cols && R.aic.toBits == M.aic.toBits && R.visited == M.visited && R.done == M.done
+    | _, _ => false
+  match Stepwise.genSearch dir aic p with
+  | none => pure s!"err startNaN model={showBool same}"
   | some R =>
     let miss := R.visited.filter (fun c => (entries.find? (fun e => e.1 == c)).isNone)
     if !miss.isEmpty then pure ("err oracleMiss:" ++ showCols (miss.headD []))
     else
       pure (s!"ok cols={showCols R.cols} aic={showFloat R.aic} visited={";".intercalate (R.visited.map showCols)} " ++
-        s!"done={showBool R.done}")
+        s!"done={showBool R.done} model={showBool same}")
 
 /-- `kfold n= k=` → the test folds of `KFold(k, shuffle=False)` on `n` rows -/
 def opKFold (a : Args) : Except String String := do
